@@ -7,6 +7,15 @@ ROOT = os.path.dirname(os.path.dirname(os.path.abspath(__file__)))
 SPEC = os.path.join(ROOT, "spec")
 WORK = os.path.join(ROOT, "work")
 HARNESS = os.path.join(ROOT, "harness")
+OUT = ROOT            # evidence/ and replays/ live here
+# Alternate universe for evaluating seeded changes without touching /repo: VERIF_ALT_REPO names a
+# scratch worktree of jackh726/bigtools; a copy of the harness is built against it and nothing is
+# written to /verif/evidence or /verif/replays.  The registered checks never set this.
+ALT_REPO = os.environ.get("VERIF_ALT_REPO")
+if ALT_REPO:
+    WORK = os.path.join(ROOT, "work", "alt")
+    OUT = WORK
+    HARNESS = os.path.join(ROOT, "work", "alt_harness")
 VH = os.path.join(HARNESS, "target", "debug", "vh")
 TLA_JAR = "/opt/veriftools/tla/tla2tools.jar:/opt/veriftools/tla/CommunityModules-deps.jar"
 NCPU = os.cpu_count() or 4
@@ -158,6 +167,14 @@ def build_harness(quiet=True):
     if _built:
         return VH
     t0 = time.time()
+    if ALT_REPO:
+        os.makedirs(HARNESS, exist_ok=True)
+        src = os.path.join(ROOT, "harness")
+        subprocess.run(["rsync", "-a", "--delete", "--exclude", "target", src + "/", HARNESS + "/"], check=True)
+        for fn in ("Cargo.toml",):
+            p = os.path.join(HARNESS, fn)
+            txt = open(p).read().replace("/repo/bigtools", os.path.join(ALT_REPO, "bigtools"))
+            open(p, "w").write(txt)
     env = dict(os.environ)
     env["CARGO_NET_OFFLINE"] = "true"
     p = subprocess.run(["cargo", "build", "--offline"], cwd=HARNESS, env=env,
@@ -386,7 +403,7 @@ class Run:
         self.known_hits = {}     # fid -> count
         self.drift = 0
         self.wd = workdir(pid)
-        self.replay_dir = os.path.join(ROOT, "replays", pid)
+        self.replay_dir = os.path.join(OUT, "replays", pid)
         self._known = known_for(pid)
         self._distinct = set()
 
@@ -439,8 +456,8 @@ class Run:
             ev["coverage"]["known_findings_hit"] = self.known_hits
         if self.drift:
             ev["coverage"]["model_drift_cases"] = self.drift
-        os.makedirs(os.path.join(ROOT, "evidence"), exist_ok=True)
-        with open(os.path.join(ROOT, "evidence", self.pid + ".json"), "w") as f:
+        os.makedirs(os.path.join(OUT, "evidence"), exist_ok=True)
+        with open(os.path.join(OUT, "evidence", self.pid + ".json"), "w") as f:
             json.dump(ev, f, indent=1)
         for k in self._known:
             if k["id"] in self.known_hits:
